@@ -135,19 +135,29 @@ def next_index(ctx):
     ctx.saw('previous key: models %s filter_by %s order_by %s terminal %s' % (qs.models, qs.filter_by, qs.order_by, qs.terminal))
     ctx.require(qs.models == ['DbKey'] and not qs.filters, q, 'previous-key query runs on %s with extra filters %s' % (qs.models, qs.filters), asg[0])
     for col, src in CHAIN_FIELDS.items():
-        ctx.require(qs.filter_by.get(col) == src, q, 'previous-key query %s on %s' % ('filters %s=%s' % (col, qs.filter_by[col]) if col in qs.filter_by else 'does not filter', col), asg[0],
-                    'the next index is taken from another chain: gaps or repeated addresses')
+        if col not in qs.filter_by:
+            ctx.violate(q, 'previous-key query does not filter on %s' % col, asg[0], 'the next index is taken from another chain: gaps or repeated addresses')
+        else:
+            ctx.match(q, 'filter %s of the previous-key query' % col, qs.filter_by[col], src, fn, asg[0], 'the next index is taken from another chain: gaps or repeated addresses')
     extra = set(qs.filter_by) - set(CHAIN_FIELDS)
     ctx.require(not extra, q, 'previous-key query has extra filters %s' % sorted(extra), asg[0])
-    ctx.require(qs.order_by == ['DbKey.address_index.desc()'] and qs.terminal == 'first', q,
-                'previous key is selected by order %s / %s, not by the highest address_index' % (qs.order_by, qs.terminal), asg[0],
-                'after keys were created out of order the next index repeats an existing one')
+    if qs.terminal != 'first' or len(qs.order_by) != 1:
+        ctx.unsure('%s: previous key selected by order %s / %s' % (q, qs.order_by, qs.terminal))
+    else:
+        ctx.match(q, 'order of the previous-key query', qs.order_by[0], 'DbKey.address_index.desc()', fn, asg[0], 'after keys were created out of order the next index repeats an existing one')
     inc = [n for n in ast.walk(fn) if isinstance(n, ast.Assign) and unparse(n.targets[0]) == 'address_index' and 'prevkey' in unparse(n.value)]
-    ctx.require(len(inc) == 1 and norm(inc[0].value) == 'prevkey.address_index + 1', q, 'next index is %s' % (norm(inc[0].value) if inc else 'not derived from the previous key'), inc[0] if inc else fn)
+    if len(inc) != 1:
+        ctx.unsure('%s: next index is not derived from the previous key in one place' % q)
+    elif norm(inc[0].value) == 'prevkey.address_index':
+        ctx.violate(q, 'next index is prevkey.address_index: the last index is issued again', inc[0])
+    elif norm(inc[0].value) not in ('prevkey.address_index + 1', '1 + prevkey.address_index'):
+        ctx.unsure('%s: next index is %s' % (q, norm(inc[0].value)))
     calls = [c for c in ast.walk(fn) if isinstance(c, ast.Call) and unparse(c.func) == 'self.keys_for_path']
-    kw = {k.arg: norm(k.value) for c in calls for k in c.keywords}
+    if not calls:
+        ctx.undecided('Wallet.new_keys: call of keys_for_path not found')
+    kwn = {k.arg: k.value for c in calls for k in c.keywords}
     for name in ('address_index', 'account_id', 'witness_type', 'network', 'cosigner_id', 'change', 'number_of_keys'):
-        ctx.require(kw.get(name) == name, q, 'keys_for_path is called with %s=%s' % (name, kw.get(name)), calls[0] if calls else fn)
+        ctx.match(q, 'argument %s of keys_for_path' % name, kwn.get(name), name, None, calls[0])
     # bulk branch
     q2 = 'wallets:Wallet.keys_for_path'
     f2 = ctx.repo.func(q2)
@@ -157,8 +167,12 @@ def next_index(ctx):
     lo, hi = norm(rng[0].args[0]), norm(rng[0].args[1])
     ctx.saw('bulk branch creates range(%s, %s)' % (lo, hi))
     base = "int(fullpath[-1].strip(\"'\"))"
-    ctx.require(lo == base + ' + len(new_keys)' and hi == base + ' + number_of_keys', q2, 'bulk branch creates indexes range(%s, %s)' % (lo, hi), rng[0],
-                'bulk key creation leaves a gap or repeats an index')
+    if lo == base + ' + len(new_keys)' and hi == base + ' + number_of_keys':
+        pass
+    elif lo.startswith(base + ' + len(new_keys)') or hi.startswith(base + ' + number_of_keys') or lo == base or lo.startswith(base + ' + '):
+        ctx.violate(q2, 'bulk branch creates indexes range(%s, %s)' % (lo, hi), rng[0], 'bulk key creation leaves a gap or repeats an index')
+    else:
+        ctx.unsure('%s: bulk index range(%s, %s) not recognised' % (q2, lo, hi))
 
 
 @PROP.obligation('C09.account-default', canaries=[
@@ -212,8 +226,10 @@ def from_key_siblings(ctx):
         for name in sorted(must):
             ctx.require(kw.get(name) == ref.get(name), q, 'WalletKey.from_key call %d passes %s=%s, the first call passes %s' % (i, name, kw.get(name), ref.get(name)), calls[i - 1],
                         'keys created in bulk are stored with another %s than single keys of the same path' % name)
+    first = {k.arg: k.value for k in calls[0].keywords}
     for name in ('encoding', 'witness_type', 'purpose'):
-        ctx.require(ref.get(name) == name, q, 'WalletKey.from_key receives %s=%s instead of the value computed for the requested witness type' % (name, ref.get(name)), calls[0])
+        ctx.match(q, 'argument %s of WalletKey.from_key (the value computed for the requested witness type)' % name, first.get(name), name, None, calls[0],
+                  'keys of another witness type are stored with the wallet default')
 
 
 COLS = {'wallet_id': 'wallet_id', 'purpose': 'purpose', 'account_id': 'account_id', 'change': 'change', 'parent_id': 'parent_id', 'path': 'path', 'key_type': 'key_type',
@@ -238,19 +254,24 @@ def stored_fields(ctx):
         ctx.undecided('WalletKey.from_key: DbKey(...) of the key branch not found')
     kw = {k.arg: norm(k.value) for k in calls[0].keywords}
     n = 0
+    kwn = {k.arg: k.value for k in calls[0].keywords}
     for col, src in COLS.items():
         n += 1
-        ctx.require(kw.get(col) == src, q, 'column %s is stored from `%s`, expected `%s`' % (col, kw.get(col), src), calls[0], 'the persisted key does not describe the derived key')
+        ctx.match(q, 'column %s' % col, kwn.get(col), src, fn, calls[0], 'the persisted key does not describe the derived key')
     ctx.saw('%d columns of DbKey(...) come from the derived key / the argument of the same name' % n)
     defs = {}
     for s in ast.walk(fn):
         if isinstance(s, ast.Assign) and isinstance(s.targets[0], ast.Name) and s.targets[0].id in ('address', 'address_index', 'script_type'):
             defs.setdefault(s.targets[0].id, []).append(norm(s.value))
     ctx.saw('address = %s ; address_index = %s ; script_type = %s' % (defs.get('address'), defs.get('address_index'), defs.get('script_type')))
-    ctx.require(defs.get('address') == ['k.address(encoding=encoding, script_type=script_type)'], q, 'address is computed as %s' % defs.get('address'), fn,
-                'the stored address is not the one of the requested witness type')
-    ctx.require(defs.get('address_index') == ['k.child_index % 2147483648'], q, 'address_index is computed as %s' % defs.get('address_index'), fn)
-    ctx.require(defs.get('script_type') == ['script_type_default(witness_type, multisig)'], q, 'script_type is computed as %s' % defs.get('script_type'), fn)
+    for name, exp, why in (('address', 'k.address(encoding=encoding, script_type=script_type)', 'the stored address is not the one of the requested witness type'),
+                           ('address_index', 'k.child_index % 2147483648', 'hardened indexes are stored with the marker bit'),
+                           ('script_type', 'script_type_default(witness_type, multisig)', '')):
+        vals = defs.get(name) or [None]
+        if len(vals) != 1:
+            ctx.unsure('%s: %s is assigned in %d places' % (q, name, len(vals)))
+        else:
+            ctx.match(q, 'local %s' % name, vals[0], exp, None, fn, why)
     cls = ctx.repo.cls('db:DbKey')
     targs = [n for n in cls.body if isinstance(n, ast.Assign) and unparse(n.targets[0]) == '__table_args__']
     if not targs:
@@ -277,10 +298,22 @@ def new_account(ctx):
     if qs is None:
         ctx.undecided('Wallet.new_account: highest-account lookup is not a query chain')
     ctx.saw('highest account: filter_by %s order_by %s terminal %s' % (qs.filter_by, qs.order_by, qs.terminal))
-    ctx.require(qs.filter_by == {'wallet_id': 'self.wallet_id', 'witness_type': 'witness_type', 'network_name': 'network'} and qs.order_by == ['DbKey.account_id.desc()'] and qs.terminal == 'first', q,
-                'highest account is looked up with %s / %s / %s' % (qs.filter_by, qs.order_by, qs.terminal), asg[0])
+    for col, src in (('wallet_id', 'self.wallet_id'), ('witness_type', 'witness_type'), ('network_name', 'network')):
+        if col not in qs.filter_by:
+            ctx.violate(q, 'highest-account query does not filter on %s' % col, asg[0], 'accounts of another wallet / witness type / network are counted')
+        else:
+            ctx.match(q, 'filter %s of the highest-account query' % col, qs.filter_by[col], src, fn, asg[0])
+    if qs.terminal != 'first' or len(qs.order_by) != 1:
+        ctx.unsure('%s: highest account selected by %s / %s' % (q, qs.order_by, qs.terminal))
+    else:
+        ctx.match(q, 'order of the highest-account query', qs.order_by[0], 'DbKey.account_id.desc()', fn, asg[0], 'new_account does not continue after the highest account')
     inc = [n for n in ast.walk(fn) if isinstance(n, ast.Assign) and unparse(n.targets[0]) == 'account_id' and 'qr' in unparse(n.value)]
-    ctx.require(len(inc) == 1 and norm(inc[0].value) == 'qr.account_id + 1', q, 'next account is %s' % (norm(inc[0].value) if inc else '?'), fn, 'new_account returns an account that exists')
+    if len(inc) != 1:
+        ctx.unsure('%s: next account not derived from the query in one place' % q)
+    elif norm(inc[0].value) == 'qr.account_id':
+        ctx.violate(q, 'next account is qr.account_id: an existing account number is reused', inc[0], 'new_account returns an account that exists')
+    elif norm(inc[0].value) not in ('qr.account_id + 1', '1 + qr.account_id'):
+        ctx.unsure('%s: next account is %s' % (q, norm(inc[0].value)))
     dup = [n for n in walk_no_nested(fn) if isinstance(n, ast.If) and n.body and isinstance(n.body[0], ast.Raise) and 'self.keys(' in unparse(n.test) and 'account_id=account_id' in unparse(n.test)]
     ctx.require(bool(dup), q, 'an existing account is not refused', fn)
     calls = [c for c in ast.walk(fn) if isinstance(c, ast.Call) and unparse(c.func) == 'self.key_for_path']
